@@ -417,11 +417,78 @@ def _canonical_asserts(cv):
             return True
         return False
 
+    def elem_of(name):
+        v = env.get(name)
+        return v[5:-1] if isinstance(v, str) and v.startswith('elem(') and v.endswith(')') else None
+
+    def bind_pairs(gens):
+        """generators ranging over Q x Sigma (two generators, or one over itertools.product(Q, Sigma)); binds the variables"""
+        if len(gens) == 2 and all(isinstance(g.target, ast.Name) and not g.ifs for g in gens[:1]) and isinstance(gens[1].target, ast.Name):
+            for g in gens:
+                env[g.target.id] = 'elem(' + canon_expr(g.iter) + ')'
+            return True
+        if len(gens) == 1 and isinstance(gens[0].iter, ast.Call) and u(gens[0].iter.func).split('.')[-1] == 'product' and len(gens[0].iter.args) == 2 and not gens[0].iter.keywords:
+            a0, a1 = gens[0].iter.args
+            tg = gens[0].target
+            if isinstance(tg, ast.Tuple) and len(tg.elts) == 2 and all(isinstance(x, ast.Name) for x in tg.elts):
+                env[tg.elts[0].id] = 'elem(' + canon_expr(a0) + ')'
+                env[tg.elts[1].id] = 'elem(' + canon_expr(a1) + ')'
+                return True
+            if isinstance(tg, ast.Name):
+                env[tg.id] = 'pair(' + canon_expr(a0) + ', ' + canon_expr(a1) + ')'
+                return True
+        return False
+
+    def is_total_test(t, positive=True):
+        """(q, a) in delta  with q ranging over Q and a over Sigma (positive), or its negation"""
+        if isinstance(t, ast.UnaryOp) and isinstance(t.op, ast.Not):
+            return is_total_test(t.operand, not positive)
+        if not (isinstance(t, ast.Compare) and len(t.ops) == 1 and isinstance(t.ops[0], (ast.In, ast.NotIn))):
+            return False
+        if isinstance(t.ops[0], ast.NotIn):
+            positive = not positive
+        m = t.comparators[0]
+        if isinstance(m, ast.Call) and isinstance(m.func, ast.Attribute) and m.func.attr == 'keys':
+            m = m.func.value
+        if not is_map(m) or not positive:
+            return False
+        k = t.left
+        if isinstance(k, ast.Tuple) and len(k.elts) == 2 and all(isinstance(x, ast.Name) for x in k.elts):
+            return elem_of(k.elts[0].id) == 'self.Q' and elem_of(k.elts[1].id) == 'self.Sigma'
+        if isinstance(k, ast.Name):
+            return env.get(k.id) == 'pair(self.Q, self.Sigma)'
+        return False
+
     def add_atom(t):
         # split conjunctions
         if isinstance(t, ast.BoolOp) and isinstance(t.op, ast.And):
             for v in t.values:
                 add_atom(v)
+            return
+        # totality, spelled out:  (q, a) in delta  under loops over Q and Sigma
+        if is_total_test(t):
+            atoms.add('self._is_total()')
+            return
+        # delta[q, a] in S  is  "val in S"  for the keys the surrounding loops range over
+        if isinstance(t, ast.Compare) and len(t.ops) == 1 and isinstance(t.ops[0], ast.In) and isinstance(t.left, ast.Subscript) and is_map(t.left.value):
+            atoms.add('val in ' + canon_expr(t.comparators[0]))
+            return
+        # all((q, a) in delta for q in Q for a in Sigma)
+        if isinstance(t, ast.Call) and isinstance(t.func, ast.Name) and t.func.id == 'all' and len(t.args) == 1 and isinstance(t.args[0], (ast.GeneratorExp, ast.ListComp)):
+            saved = dict(env)
+            if bind_pairs(t.args[0].generators) and is_total_test(t.args[0].elt):
+                atoms.add('self._is_total()')
+                env.clear()
+                env.update(saved)
+                return
+            env.clear()
+            env.update(saved)
+        # missing = [(q, a) for q in Q for a in Sigma if (q, a) not in delta] ; assert not missing / len(missing) == 0
+        m0 = t.operand if isinstance(t, ast.UnaryOp) and isinstance(t.op, ast.Not) else None
+        if isinstance(t, ast.Compare) and len(t.ops) == 1 and isinstance(t.ops[0], ast.Eq) and isinstance(t.left, ast.Call) and u(t.left.func) == 'len' and u(t.comparators[0]) == '0':
+            m0 = t.left.args[0]
+        if isinstance(m0, ast.Name) and env.get(m0.id) == '__missing_pairs__':
+            atoms.add('self._is_total()')
             return
         # all(c for .. in delta)  ==  c for every transition
         if isinstance(t, ast.Call) and isinstance(t.func, ast.Name) and t.func.id == 'all' and len(t.args) == 1 and isinstance(t.args[0], (ast.GeneratorExp, ast.ListComp)) \
@@ -527,6 +594,17 @@ def _canonical_asserts(cv):
                 if isinstance(val, ast.Subscript) and is_map(val.value):
                     bind(tg, 'val')
                     continue
+                if isinstance(tg, ast.Name) and isinstance(val, (ast.ListComp, ast.SetComp)) and val.generators and len(val.generators[-1].ifs) == 1:
+                    saved = dict(env)
+                    gens = [ast.comprehension(target=g.target, iter=g.iter, ifs=[], is_async=0) for g in val.generators]
+                    cond = val.generators[-1].ifs[0]
+                    neg = ast.UnaryOp(op=ast.Not(), operand=cond)
+                    hit = bind_pairs(gens) and is_total_test(neg)
+                    env.clear()
+                    env.update(saved)
+                    if hit:
+                        env[tg.id] = '__missing_pairs__'
+                        continue
                 if isinstance(tg, ast.Name):
                     env[tg.id] = canon_expr(val)
                 elif isinstance(tg, (ast.Tuple, ast.List)):
@@ -534,6 +612,10 @@ def _canonical_asserts(cv):
                 continue
             if isinstance(st, ast.For):
                 it = st.iter
+                if canon_expr(it) in ('self.Q', 'self.Sigma') and isinstance(st.target, ast.Name):
+                    env[st.target.id] = 'elem(' + canon_expr(it) + ')'
+                elif isinstance(it, ast.Call) and u(it.func).split('.')[-1] == 'product':
+                    bind_pairs([ast.comprehension(target=st.target, iter=it, ifs=[], is_async=0)])
                 if is_map(it):
                     bind(st.target, 'key')
                 elif isinstance(it, ast.Call) and isinstance(it.func, ast.Attribute) and it.func.attr == 'items' and is_map(it.func.value) and isinstance(st.target, ast.Tuple) and len(st.target.elts) == 2:
@@ -586,7 +668,7 @@ def check_invariants(ctx, rep, only=None):
         # their states after sets or pairs of states then fail on their own results.  Other extra demands are not judged.
         for atom in sorted(set(asserts) - set(wanted)):
             node = ast.parse(atom, mode='eval').body
-            calls = [c for c in ast.walk(node) if isinstance(c, ast.Call) and not (isinstance(c.func, ast.Name) and c.func.id in ('len', 'isinstance', 'set', 'frozenset', 'all', 'any', 'sorted', 'list', 'tuple'))
+            calls = [c for c in ast.walk(node) if isinstance(c, ast.Call) and not (isinstance(c.func, ast.Name) and c.func.id in ('len', 'isinstance', 'set', 'frozenset', 'all', 'any', 'sorted', 'list', 'tuple', 'elem', 'pair'))
                      and not (isinstance(c.func, ast.Attribute) and c.func.attr in ('issubset', 'issuperset', 'isdisjoint', 'keys', 'values', 'items', 'union', 'copy'))]
             if isinstance(node, ast.Call) and isinstance(node.func, ast.Name) and node.func.id == 'isinstance':
                 continue
